@@ -131,8 +131,8 @@ type fakeSwarm struct{ coreiface.SwarmAPI }
 
 func (fakeSwarm) Connect(context.Context, peer.AddrInfo) error { return nil }
 
-func (a *fakeAPI) Key() coreiface.KeyAPI     { return fakeKeyAPI{id: a.id} }
-func (a *fakeAPI) Swarm() coreiface.SwarmAPI { return fakeSwarm{} }
+func (a *fakeAPI) Key() coreiface.KeyAPI       { return fakeKeyAPI{id: a.id} }
+func (a *fakeAPI) Swarm() coreiface.SwarmAPI   { return fakeSwarm{} }
 func (a *fakeAPI) PubSub() coreiface.PubSubAPI { return (*fakePubSub)(a) }
 
 type fakePubSub fakeAPI
